@@ -372,6 +372,19 @@ impl<'a> Gen<'a> {
   }
 }
 
+/// An expression of the grammar and a context literal binding the names it uses, for simulators that
+/// send expressions to the service (the body of `/evaluate` is a FEEL context).
+pub fn generated_request_context(seed: u64) -> String {
+  let mut rng = Rng::new(seed);
+  let v = rng.below(6);
+  let depth = 1 + rng.index(3) as u32;
+  let mut g = Gen { rng: &mut rng, clock_bound: false };
+  let text = g.any(depth);
+  let base = scope_texts(v, 1).remove(0);
+  // the base is `{...}`: one more entry behind the last one
+  format!("{}, zz: {}}}", &base[..base.len() - 1], text)
+}
+
 fn pushes_context(text: &str) -> bool {
   text.contains("for ") || text.contains("some ") || text.contains("every ") || text.contains("function") || text.contains('{') || text.contains("[item") || text.contains("[age") || text.contains("[name") || text.contains("[qty") || text.contains("inc(")
 }
